@@ -562,7 +562,8 @@ class Ev:
         op = e["op"]
         if op in ("And", "Or"):
             l, r = self.eval(e["l"], env, depth), self.eval(e["r"], env, depth)
-            return Sym(op.lower(), vkey(l), vkey(r))
+            a, b = sorted([vkey(l), vkey(r)], key=repr)      # commutative: conditions are side-effect free
+            return Sym(op.lower(), a, b)
         l, r = num(self.eval(e["l"], env, depth)), num(self.eval(e["r"], env, depth))
         if isinstance(l, Rec) or isinstance(r, Rec):
             if op in ("Add", "Sub", "Mul", "Div", "Rem"):
@@ -1142,6 +1143,14 @@ class Ev:
         if k == "or":
             return
         self.bind(pat, val, env)
+
+    def ev_assign(self, e, env, depth):
+        self.exec_stmt(e, env, depth)
+        return Sym("unit")
+
+    def ev_assignop(self, e, env, depth):
+        self.exec_stmt(e, env, depth)
+        return Sym("unit")
 
     def ev_panic(self, e, env, depth):
         return Sym("diverges", e.get("name"))
